@@ -80,7 +80,8 @@ StepSwap(e) == e.ev = "swap" /\ d' = rf /\ rf' = d /\ UNCHANGED bad   \* mem::sw
 StepObs(e) ==
   /\ e.ev = "obs"
   /\ LET o == [cells |-> CRunsToTriples(e.cells), ref |-> CRunsToTriples(e.ref), aa |-> e.aa, raa |-> e.raa,
-               eq |-> e.eq, eqr |-> e.eqr, ne |-> e.ne, diff |-> CRunsToTriples(e.diff), outside |-> e.outside]
+               eq |-> e.eq, eqr |-> e.eqr, ne |-> e.ne, diff |-> CRunsToTriples(e.diff), outside |-> e.outside,
+               daa |-> e.daa, sw |-> CRunsToTriples(e.sw), swaa |-> e.swaa, mp |-> CRunsToTriples(e.mp), mpaa |-> e.mpaa]
          agree == CellsAgree(d.cells, rf.cells)
      IN /\ Judge(e, ObsFails(d, rf, o), [ev |-> "obs", aa |-> e.aa, predicted_aa |-> AffectedArea(d), eq |-> e.eq,
                                          predicted_eq |-> agree, ncells |-> Cardinality(DOMAIN d.cells),
